@@ -767,7 +767,9 @@ def _unpacks_trivially(target: ast.Tuple, value: ast.AST) -> bool:
 
 
 def _iter_unused_names(
-    scope: ast.AST, preserve: Collection[str] = frozenset()
+    scope: ast.AST,
+    preserve: Collection[str] = frozenset(),
+    deferred: Collection[str] = frozenset(),
 ) -> Iterable[ast.Name]:
     # preserve presumably contains everything that any outer scope could be interested
     # in. So any name that is set but never accessed, and that is not in preserve, can
@@ -776,6 +778,7 @@ def _iter_unused_names(
     # cannot be undefined by looking at what follows an assignment.
     # A generator expression evaluates the iterable of its first for clause at once, and
     # everything else when it is consumed.
+    # deferred holds the names that functions outside of scope read in that way.
     deferred_reads = collections.defaultdict(set)
     for funcdef in core.walk(
         scope, (ast.FunctionDef, ast.AsyncFunctionDef, ast.Lambda, ast.GeneratorExp)
@@ -867,6 +870,7 @@ def _iter_unused_names(
                         isinstance(node, (ast.Assign, ast.AnnAssign))
                         and name not in subsequent_required
                         and name not in deferred_reads
+                        and name not in deferred
                         and (
                             # And (name) is either not in preserve (so nothing upstream cares about
                             # it), or (name) will surely be defined by a subsequent node, and the
@@ -905,7 +909,9 @@ def _iter_unused_names(
                         }
                         yield from core.filter_nodes(
                             _iter_unused_names(
-                                node, preserve=preserve | subsequent_required | read_elsewhere
+                                node,
+                                preserve=preserve | subsequent_required | read_elsewhere,
+                                deferred=deferred | read_elsewhere,
                             ),
                             ast.Name(id=name),
                         )
